@@ -706,6 +706,12 @@ class Request(interfaces.Request, BaseUnicastRequest):
 
         first_event = yield None
 
+        if self.response.cancelled():
+            # The requester has lost interest already; the cancellation
+            # handler that withdraws our interest in the pipe is merely still
+            # scheduled. There is nobody left to hand the event to.
+            return
+
         if first_event.message is not None:
             self._add_response_properties(first_event.message, self._pipe.request)
             self.response.set_result(first_event.message)
